@@ -26,6 +26,17 @@ m("C09-mix-skip-last", PH, "            for j in 0..state.len() {\n             
 m("C09-ark-offset", PH, "                i * self.round_params[param_index].t,", "                i * (inp.len() + 1).min(8),", "C09")
 m("C09-be-read", UT, "        Fr::from(BigUint::from_bytes_le(&input[0..el_size])),", "        Fr::from(BigUint::from_bytes_be(&input[0..el_size])),", "C09")
 
+GR = "rln/src/circuit/iden3calc/graph.rs"
+STO = "rln/src/circuit/iden3calc/storage.rs"
+CALC = "rln/src/circuit/iden3calc.rs"
+# ---- C20
+m("C20-lt-gt-swapped-enc", GR, "            Operation::Lt => proto::DuoOp::Lt,\n            Operation::Gt => proto::DuoOp::Gt,", "            Operation::Lt => proto::DuoOp::Gt,\n            Operation::Gt => proto::DuoOp::Lt,", "C20")
+m("C20-bc-swapped-dec", STO, "                    tres_op_node.b_idx as usize,\n                    tres_op_node.c_idx as usize,", "                    tres_op_node.c_idx as usize,\n                    tres_op_node.b_idx as usize,", "C20")
+m("C20-tres-operands-swapped", GR, "op.eval_fr(values[a], values[b], values[c])", "op.eval_fr(values[a], values[c], values[b])", "C20")
+m("C20-const-be-writer", STO, "value_le: bi.to_bytes_le(),", "value_le: bi.to_bytes_be(),", "C20")
+m("C20-populate-len-guard-weakened", CALC, "        if len != value.len() {", "        if len < value.len() {", "C20")
+m("C20-uno-id-dec", STO, "            proto::UnoOp::Id => UnoOperation::Id,", "            proto::UnoOp::Id => UnoOperation::Neg,", "C20")
+
 
 def main():
     os.makedirs(OUT, exist_ok=True)
